@@ -74,7 +74,7 @@ def audit(audit_file):
     # "'LyModel.Foo.bar' depends on axioms: [propext, Quot.sound]" (may wrap lines) or
     # "'LyModel.Foo.bar' does not depend on any axioms"
     flat = re.sub(r"\s+", " ", out)
-    for m in re.finditer(r"'([^']+)' (does not depend on any axioms|depends on axioms: \[([^\]]*)\])", flat):
+    for m in re.finditer(r"'([^' ]+'*)' (does not depend on any axioms|depends on axioms: \[([^\]]*)\])", flat):
         axs = [a.strip() for a in (m.group(3) or "").split(",") if a.strip()]
         res.append((m.group(1), axs))
     wanted = re.findall(r"^#print axioms\s+(\S+)", open(os.path.join(paths.LEAN, audit_file)).read(), re.M)
